@@ -24,7 +24,7 @@ pub const ENTRY: Entry = Entry {
     assumptions: &[
         "reference controller + canvas specification",
         "rectangles that embedded-graphics itself cannot represent (top_left+size overflow, >= 2^32 points) are not generated",
-        "fill_contiguous cases whose visible part exceeds 2^17 pixels are skipped on 65535-wide displays (cost), counted in 'skipped_large'",
+        "fill_contiguous cases whose visible part exceeds 2^12 (quick) / 2^17 (thorough) pixels are skipped on 65535-wide displays (cost), counted in 'skipped_large'",
     ],
     run,
 };
@@ -92,7 +92,7 @@ pub fn configs(quick: bool) -> Vec<Cfg> {
     v
 }
 
-#[derive(Clone, Copy, PartialEq, Eq)]
+#[derive(Clone, Copy, PartialEq, Eq, Debug)]
 pub enum Part2 {
     Singles,
     Pairs,
@@ -201,7 +201,8 @@ pub fn check_case(ctx: &Ctx, acc: &mut Acc, cfg: &Cfg, op: &Op, ck: &Checks, dif
     let geo = cfg.geo();
     let (lw, lh) = geo.lsize();
     if let Op::FillContiguous { r, .. } = op {
-        if clipped_area(r, lw, lh) > 1 << 17 {
+        let limit = if ctx.quick() { 1 << 12 } else { 1 << 17 };
+        if clipped_area(r, lw, lh) > limit {
             acc.count("skipped_large", 1);
             return;
         }
@@ -259,22 +260,32 @@ fn run(ctx: &Ctx) -> Part {
     let t0 = Instant::now();
     let quick = ctx.quick();
     let cfgs = configs(quick);
-    let acc = cfgs
+    let jobs: Vec<(Cfg, Part2)> = cfgs.iter().flat_map(|c| [Part2::Singles, Part2::Pairs, Part2::Triples, Part2::Rects].into_iter().map(move |p| (*c, p))).collect();
+    let acc = jobs
         .par_iter()
-        .fold(Acc::new, |mut acc, cfg| {
+        .fold(Acc::new, |mut acc, (cfg, part)| {
             let mut n = 0u64;
-            for_each_op(cfg, quick, &mut |op, _| {
+            let tcfg = Instant::now();
+            for_each_op(cfg, quick, &mut |op, p| {
+                if p != *part {
+                    return;
+                }
                 check_case(ctx, &mut acc, cfg, &op, &Checks::ALL, true);
                 n += 1;
                 if n == 1000 && acc.samples.len() < 2 {
                     acc.sample(json!({"cfg": cfg, "history": [op]}));
                 }
             });
-            acc.states += 1;
-            acc.count("configurations", 1);
-            let g = cfg.geo();
-            if g.ox > 0 || g.oy > 0 || g.w < g.fw || g.h < g.fh {
-                acc.count("configs_with_cells_outside_window", 1);
+            if std::env::var_os("MC_VERBOSE").is_some() {
+                eprintln!("cfg fb {:?} win {:?} o{} {:?}: {} cases {:.2}s", cfg.fb(), cfg.win, cfg.orient, part, n, tcfg.elapsed().as_secs_f64());
+            }
+            if *part == Part2::Singles {
+                acc.states += 1;
+                acc.count("configurations", 1);
+                let g = cfg.geo();
+                if g.ox > 0 || g.oy > 0 || g.w < g.fw || g.h < g.fh {
+                    acc.count("configs_with_cells_outside_window", 1);
+                }
             }
             acc
         })
